@@ -15,6 +15,22 @@ from ECAgent.Decode import JsonDecoder
 MOD = FX.__name__
 
 
+_NPROG = [0]
+
+
+class _ParseOnce(JsonDecoder):
+    def __init__(self):
+        super().__init__()
+        self.parsed = {}
+
+    def open_file(self, file_path):
+        with open(file_path) as f:
+            text = f.read()
+        if text not in self.parsed:
+            self.parsed[text] = super().open_file(file_path)
+        return self.parsed[text]
+
+
 def _install_main_aliases():
     """The documented default for an omitted "module" is `__main__`: the fixtures are also reachable there, under other names
     (hooks) or under the same names but as other classes (so that a lookup in the wrong module shows)."""
@@ -68,6 +84,10 @@ def run_program(prog):
     tmp = tempfile.mkdtemp(prefix="verif-dec-")
     events = []
     _install_main_aliases()
+    _NPROG[0] += 1
+    # every other program decodes through a user-written decoder (the documented extension point open_file) that parses a
+    # description once and hands the same parsed object to every later decode of the same text
+    decoder = _ParseOnce() if _NPROG[0] % 2 else JsonDecoder()
     try:
         for n, d in enumerate(prog):
             d.setdefault("nomod", 0)
@@ -79,7 +99,7 @@ def run_program(prog):
             exc = None
             final = {"systems": [], "agents": [], "ran": []}
             try:
-                m = JsonDecoder().decode(path)
+                m = decoder.decode(path)
                 for s in d["systems"]:
                     pass
                 seen = []
